@@ -357,17 +357,16 @@ theorem finish_global (ecfg : Emf.Config) (w : Emf.Writer) (nowMs : Nat) {S Fd :
 
 /-! ### the line is the printed record -/
 
-theorem extras_eq_print (cfg : Config) (hx : extrasOk cfg = true) :
+theorem extras_eq_print (cfg : Config) :
     Emf.extraDirectivesStr (cfg.extra.map toEmfExtra) =
       (cfg.extra.map fun d => 44 :: print (extraDirectiveJson d)).flatten := by
   unfold Emf.extraDirectivesStr
   rw [List.map_map]
   congr 1
   apply List.map_congr_left
-  intro d hd
-  have := List.all_eq_true.mp hx d hd
+  intro d _
   simp only [Function.comp_apply]
-  rw [extraDirective_eq_print d this]
+  rw [extraDirective_eq_print d]
 
 theorem nsDirective_print (ns : Str) (dims : List (List Str)) (decls : List Decl) :
     print (nsDirectiveJson ⟨ns, dims, decls⟩) =
@@ -377,7 +376,7 @@ theorem nsDirective_print (ns : Str) (dims : List (List Str)) (decls : List Decl
     Emf.dimensionsAfterNs, Emf.metricsPrefix]
 
 theorem globalLine_eq_print (cfg : Config) (sw : Switches) (txt : F → List Nat) (ns0 : Str) (more : List Str)
-    (hns : cfg.namespaces = ns0 :: more) (hx : extrasOk cfg = true)
+    (hns : cfg.namespaces = ns0 :: more)
     (dims : List (List Str)) (decls : List Decl) (T : Nat) (fields : List (Str × MVal F)) (strs : List (Str × Str)) :
     globalLine (toEmfCfg cfg sw) (dims.map jarrStrings) (printElems (decls.map declJson)) (natDigits T)
         (fieldBytes txt fields) (strBytes strs)
@@ -402,7 +401,7 @@ theorem globalLine_eq_print (cfg : Config) (sw : Switches) (txt : F → List Nat
     simp [nsDirective_print, Emf.nsOpen, List.append_assoc]
   unfold globalLine
   simp only [hreps, hF, hSt]
-  rw [show (toEmfCfg cfg sw).extraDirectives = cfg.extra.map toEmfExtra from rfl, extras_eq_print cfg hx]
+  rw [show (toEmfCfg cfg sw).extraDirectives = cfg.extra.map toEmfExtra from rfl, extras_eq_print cfg]
   simp only [print, printMembers_cons, pm, hns, List.map_cons, List.cons_append, printElems_cons, nsDirective_print,
     List.map_append, List.flatten_append, List.map_map]
   cases hlg : cfg.logGroup with
